@@ -720,10 +720,13 @@ func (e *env) classify(harness string, r *raceReport) classified {
 		}
 		nKnown++
 	}
-	_ = anyClient
 	switch {
 	case nKnown == 0:
 		cl.Class = "UNCLASSIFIED"
+	case anyHarness && !anyClient:
+		// no side touches client code: the harness's own memory; listed in
+		// the report, never a violation of the client's property
+		cl.Class = "HARNESS ONLY"
 	case anyHarness:
 		cl.Class = "HARNESS ARTEFACT"
 	case allClient:
@@ -751,7 +754,7 @@ func (e *env) classify(harness string, r *raceReport) classified {
 	case "CLIENT RACE":
 		cl.Canon = strings.Join(client, "|")
 		cl.Tag = "race:" + cl.Canon
-	case "HARNESS ARTEFACT":
+	case "HARNESS ARTEFACT", "HARNESS ONLY":
 		cl.Canon = cl.Match
 		cl.Tag = "harness-race:" + cl.Canon
 	case "DEP RACE":
@@ -1076,6 +1079,7 @@ func main() {
 		count int
 	}
 	byTag := map[string]*agg{}
+	harnessOnly := map[string]string{} // unlisted races inside harness code only: match -> first report
 	var order []string
 	ranLong := map[string]bool{}
 	for _, jr := range results {
@@ -1122,6 +1126,15 @@ func main() {
 				rep.Histogram["reports_client"]++
 			case "HARNESS ARTEFACT":
 				rep.Histogram["reports_harness"]++
+			case "HARNESS ONLY":
+				rep.Histogram["reports_harness"]++
+				if _, ok := e.ignored(cl); !ok {
+					// a race inside a harness's own bookkeeping: for the
+					// harness's owner to look at, not neutrino's memory
+					rep.Histogram["harness_only_unlisted:"+cl.Match]++
+					harnessOnly[cl.Match] = r.Text
+					continue
+				}
 			case "DEP RACE":
 				rep.Histogram["reports_dep"]++
 			default:
@@ -1196,8 +1209,11 @@ func main() {
 		"are killed at a deadline (not a failure), their verdicts and exit codes are ignored. Classification by the innermost non-runtime frame of each access stack: " +
 		"client (checkout, not verif_*/_test/_verif files), dep (module cache; attributed to the first client/harness frame below, else to the goroutine's creator), harness. " +
 		"checkout=" + e.checkoutS
+	if len(harnessOnly) > 0 {
+		c.WriteJSON(filepath.Join(out, "harness_only_races.json"), harnessOnly)
+	}
 	if a.Replay == "" {
-		writeStatic(out, rep)
+		writeStatic(out, rep, e.checkoutS)
 	}
 	rep.Write(out)
 	fmt.Printf("c18: %d builds (%.1fs), %d child runs (%d finished, %d cut off, %d skipped), %d race reports (%d client, %d harness, %d dep, %d ignored), %d impl_failures, %.1fs\n",
@@ -1216,7 +1232,7 @@ func main() {
 // is started); rows come back as (site index, 2, 0, tag).  One small history
 // file per generated site lets the runner put the offending site's text into
 // the replay file.
-func writeStatic(out string, rep *c.Report) {
+func writeStatic(out string, rep *c.Report, checkout string) {
 	root := os.Getenv("VERIF_ROOT")
 	if root == "" {
 		wd, err := os.Getwd()
@@ -1225,24 +1241,47 @@ func writeStatic(out string, rep *c.Report) {
 		}
 		root = filepath.Dir(wd) // the runner starts harnesses in /verif/harness
 	}
-	gen := filepath.Join(root, "coq", "Generated", "AccessSites.v")
-	data, err := os.ReadFile(gen)
-	if err != nil {
-		rep.Histogram["static_sites"] = 0
-		return
+	// The site table of THIS checkout: run the translator (built by the
+	// runner just before); fall back to the file the runner generated.
+	var data []byte
+	ga := filepath.Join(root, ".work", "bin", "genaccess")
+	if _, err := os.Stat(ga); err == nil {
+		ctx, cancel := context.WithTimeout(context.Background(), 120*time.Second)
+		cmd := exec.CommandContext(ctx, ga, "-repo", checkout)
+		cmd.Env = goEnv()
+		if o, err := cmd.Output(); err == nil && bytes.Contains(o, []byte("Definition access_sites")) {
+			data = o
+		}
+		cancel()
+	}
+	if data == nil {
+		d, err := os.ReadFile(filepath.Join(root, "coq", "Generated", "AccessSites.v"))
+		if err != nil {
+			rep.Histogram["static_sites"] = 0
+			return
+		}
+		data = d
 	}
 	sdir := filepath.Join(out, "sites")
 	_ = os.MkdirAll(sdir, 0o755)
 	n := 0
+	inSites := false
 	for _, ln := range strings.Split(string(data), "\n") {
 		t := strings.TrimSpace(ln)
-		if !strings.HasPrefix(t, "mkA ") {
+		if strings.HasPrefix(t, "Definition access_sites") {
+			inSites = true
+			continue
+		}
+		if strings.HasPrefix(t, "Definition ") {
+			inSites = false
+		}
+		if !inSites || !strings.HasPrefix(t, "mkA ") {
 			continue
 		}
 		t = strings.TrimSuffix(t, ";")
 		hp := filepath.Join(sdir, fmt.Sprintf("hist-%d.json", n))
 		c.WriteJSON(hp, map[string]any{
-			"property": "C18", "kind": "static access site (coq/Generated/AccessSites.v, translator harness/cmd/genaccess)",
+			"property": "C18", "kind": "static access site (translator harness/cmd/genaccess on " + checkout + ")",
 			"index": n, "site": t,
 			"fields": "mkA variable function ctx kind locks-held-lexically locks-held-by-every-caller fresh-object constructor before-first-go goroutine-roots",
 			"note":   "the site does not satisfy the discipline coq/C18/Vars.v declares for the variable (C18/SiteCheck.v site_ok); C18/Tie.v Tie_sites_comply lists the same sites",
@@ -1251,7 +1290,7 @@ func writeStatic(out string, rep *c.Report) {
 		n++
 	}
 	rep.Histogram["static_sites"] = n
-	c.WriteFile(filepath.Join(out, "cases.v"),
-		"From Coq Require Import ZArith List.\nFrom Verif Require Import C18.Replay.\nImport ListNotations.\nOpen Scope Z_scope.\n"+
-			"Definition R := Eval vm_compute in static_rows.\nSet Printing Width 1000000.\nSet Printing Depth 1000000.\nPrint R.\n")
+	c.WriteFile(filepath.Join(out, "cases.v"), string(data)+
+		"\nFrom Coq Require Import ZArith.\nFrom Verif Require Import C18.Replay.\nOpen Scope Z_scope.\n"+
+		"Definition R := Eval vm_compute in (rows_of access_sites).\nSet Printing Width 1000000.\nSet Printing Depth 1000000.\nPrint R.\n")
 }
